@@ -19,10 +19,40 @@
 #include <pthread.h>
 #include <sys/stat.h>
 #include <unistd.h>
+#include <stdarg.h>
 
 extern ssize_t __real_write(int, const void *, size_t);
 extern ssize_t __real_read(int, void *, size_t);
 extern struct json_object *__real_json_tokener_parse_ex(struct json_tokener *, const char *, int);
+
+extern void *__real_malloc(size_t);
+extern void *__real_calloc(size_t, size_t);
+extern void *__real_realloc(void *, size_t);
+extern void __real_free(void *);
+extern char *__real_strdup(const char *);
+extern int __real_vasprintf(char **, const char *, va_list);
+
+/* live heap blocks obtained through the allocation entry points json-c uses (linked with
+ * --wrap=malloc,calloc,realloc,free,strdup,vasprintf).  Only differences taken around a library
+ * call are used: "the call released everything it allocated" = the difference is the size of
+ * the returned tree, which json_object_put then brings back to zero. */
+static long live_blocks;
+void *__wrap_malloc(size_t n) { void *p = __real_malloc(n); if (p) live_blocks++; return p; }
+void *__wrap_calloc(size_t a, size_t b) { void *p = __real_calloc(a, b); if (p) live_blocks++; return p; }
+void *__wrap_realloc(void *o, size_t n)
+{
+	void *p = __real_realloc(o, n);
+	if (!o && p) live_blocks++;
+	return p;
+}
+void __wrap_free(void *p) { if (p) live_blocks--; __real_free(p); }
+char *__wrap_strdup(const char *s0) { char *p = __real_strdup(s0); if (p) live_blocks++; return p; }
+int __wrap_vasprintf(char **out, const char *f, va_list ap)
+{
+	int r = __real_vasprintf(out, f, ap);
+	if (r >= 0) live_blocks++;
+	return r;
+}
 
 #define FAKE_FD 77
 #define CANON_FD 1000
@@ -65,7 +95,7 @@ static void add_call(size_t off, size_t req, long len)
 	if (ncalls == capcalls)
 	{
 		capcalls = capcalls ? capcalls * 2 : 64;
-		calls = (struct call *)realloc(calls, capcalls * sizeof(*calls));
+		calls = (struct call *)__real_realloc(calls, capcalls * sizeof(*calls));
 	}
 	calls[ncalls].off = off;
 	calls[ncalls].req = req;
@@ -104,7 +134,7 @@ ssize_t __wrap_write(int fd, const void *buf, size_t count)
 	if (ndeliv + d > capdeliv)
 	{
 		capdeliv = (ndeliv + d) * 2 + 64;
-		deliv = (unsigned char *)realloc(deliv, capdeliv);
+		deliv = (unsigned char *)__real_realloc(deliv, capdeliv);
 	}
 	if (d)
 		memcpy(deliv + ndeliv, buf, d);
@@ -157,8 +187,8 @@ struct json_object *__wrap_json_tokener_parse_ex(struct json_tokener *tok, const
 	size_t n = len < 0 ? strlen(str) : (size_t)len;
 	p_called++;
 	p_depth = tok->max_depth;
-	free(p_buf);
-	p_buf = (unsigned char *)malloc(n ? n : 1);
+	__real_free(p_buf);
+	p_buf = (unsigned char *)__real_malloc(n ? n : 1);
 	if (n)
 		memcpy(p_buf, str, n);
 	p_len = n;
@@ -317,6 +347,7 @@ static void do_write(int which, int flags, const char *tree, const char *ser, co
 	int fds0 = count_fds();
 	clear_err();
 	int ret;
+	long live0 = live_blocks;
 	if (which == 0)
 	{
 		mode = M_WFAKE;
@@ -328,15 +359,16 @@ static void do_write(int which, int flags, const char *tree, const char *ser, co
 		ret = json_object_to_file_ext(path, obj, flags);
 	}
 	mode = M_PASS;
+	long leak = live_blocks - live0;
 	int fds1 = count_fds();
 	const char *m = json_util_get_last_err();
 	printf("%d ", ret);
 	puthex(deliv, ndeliv);
-	printf(" err=%d ## calls=", m ? 1 : 0);
+	printf(" err=%d fds=%d leak=%ld ## calls=", m ? 1 : 0, fds1 - fds0, leak);
 	print_calls(1);
 	printf(" msg=");
 	print_msg(0);
-	printf(" ser=%s fds=%d", serchk, fds1 - fds0);
+	printf(" ser=%s", serchk);
 	if (which == 1)
 	{
 		/* what is in the file must be what the wrapped write calls were given */
@@ -349,7 +381,7 @@ static void do_write(int which, int flags, const char *tree, const char *ser, co
 				unsigned char *got = (unsigned char *)malloc(ndeliv + 2);
 				size_t n = fread(got, 1, ndeliv + 1, f);
 				fclose(f);
-				fv = (n == ndeliv && !memcmp(got, deliv, n)) ? "1" : "0";
+				fv = (n == ndeliv && (n == 0 || !memcmp(got, deliv, n))) ? "1" : "0";
 				free(got);
 				unlink(path);
 			}
@@ -364,25 +396,37 @@ static void do_write(int which, int flags, const char *tree, const char *ser, co
 
 /* after a read-side call: compare with parsing the same bytes from memory */
 static void report_read(struct json_object *res, const unsigned char *data, size_t len, int depth_eff, int real,
-                        int fds, int canon_fd)
+                        int fds, int canon_fd, long leak_call)
 {
 	const char *m = json_util_get_last_err();
 	if (!real)
 	{
-		/* "the same bytes" = the bytes the descriptor delivered before end of file */
-		size_t got = 0;
-		for (size_t i = 0; i < ncalls; i++)
-			if (calls[i].len > 0)
-				got += (size_t)calls[i].len;
-		if (got < len)
-			len = got;
+		/* "the same bytes" = what the descriptor holds before its end of file: all the data, or the part
+		 * before a scheduled zero return (each call hands over at most JSON_FILE_BUF_SIZE bytes) */
+		size_t pos = 0;
+		for (size_t i = 0; i < nsch && pos < len; i++)
+		{
+			if (sch[i].kind == K_E)
+				break;
+			if (sch[i].kind == K_Z)
+			{
+				len = pos;
+				break;
+			}
+			size_t k = sch[i].n < JSON_FILE_BUF_SIZE ? sch[i].n : JSON_FILE_BUF_SIZE;
+			pos += k < len - pos ? k : len - pos;
+		}
 	}
+	/* the oracle: one json_tokener_parse_ex call over the same bytes, tokener of the configured depth */
+	int same = -1;
+	char *a = NULL, *b = NULL;
+	const char *desc = "";
+	struct json_object *memobj = NULL;
+	int have_mem = 0;
 	if (p_called)
 	{
 		struct json_tokener *tok = json_tokener_new_ex(depth_eff);
-		struct json_object *memobj = NULL;
-		const char *desc = "";
-		int same = 0;
+		same = 0;
 		if (tok)
 		{
 			char *copy = (char *)malloc(len + 1);
@@ -390,54 +434,63 @@ static void report_read(struct json_object *res, const unsigned char *data, size
 				memcpy(copy, data, len);
 			copy[len] = 0;
 			memobj = __real_json_tokener_parse_ex(tok, copy, (int)len);
+			have_mem = 1;
 			desc = json_tokener_error_desc(json_tokener_get_error(tok));
 			free(copy);
-			char *a = dump_str(res), *b = dump_str(memobj);
+			a = dump_str(res);
+			b = dump_str(memobj);
 			same = ((res == NULL) == (memobj == NULL)) && !strcmp(a, b) &&
 			       (res ? m == NULL : (m != NULL && strstr(m, desc) != NULL));
-			same = same && p_called == 1;
-			printf("PARSED err=- same=%d ## ", same);
-			if (real)
-				printf("real");
-			else
-			{
-				printf("reads=");
-				print_calls(0);
-				printf(" parse=%d:", p_depth);
-				puthex(p_buf, p_len);
-				printf(" msg=P fds=%d", fds);
-			}
-			if (!same)
-			{
-				printf(" fdres=%s memres=%s memerr=%s msg=", res ? a : "NULL", memobj ? b : "NULL", desc);
-				print_msg(0);
-			}
-			putchar('\n');
-			free(a);
-			free(b);
-			json_object_put(memobj);
+			/* the parser ran once, on a tokener with the configured depth limit, over exactly those bytes */
+			same = same && p_called == 1 && p_depth == depth_eff;
+			if (!real)
+				same = same && p_len == len && (len == 0 || !memcmp(p_buf, data, len));
 			json_tokener_free(tok);
 		}
+	}
+	/* blocks the call left allocated, minus those that make up the returned tree */
+	int was_null = res == NULL;
+	long l1 = live_blocks;
+	json_object_put(res);
+	long leak = leak_call - (l1 - live_blocks);
+	if (p_called)
+	{
+		printf("PARSED err=- same=%d", same);
+		if (real)
+			printf(" ## real");
 		else
-			printf("PARSED err=- same=0 ## oracle tokener could not be created\n");
+		{
+			printf(" fds=%d leak=%ld ## reads=", fds, leak);
+			print_calls(0);
+			printf(" parse=%d:", p_depth);
+			puthex(p_buf, p_len);
+			printf(" msg=P");
+		}
+		if (same != 1)
+		{
+			printf(" fdres=%s memres=%s memerr=%s msg=", was_null ? "NULL" : (a ? a : "?"),
+			       !have_mem ? "no-tokener" : (memobj ? b : "NULL"), desc);
+			print_msg(0);
+		}
+		putchar('\n');
 	}
 	else
 	{
-		printf("%s err=%d same=- ## ", res ? "OBJ" : "NULL", m ? 1 : 0);
+		printf("%s err=%d same=-", was_null ? "NULL" : "OBJ", m ? 1 : 0);
 		if (real)
-			printf("real msg=");
+			printf(" ## real msg=");
 		else
 		{
-			printf("reads=");
+			printf(" fds=%d leak=%ld ## reads=", fds, leak);
 			print_calls(0);
 			printf(" parse=- msg=");
 		}
 		print_msg(canon_fd);
-		if (!real)
-			printf(" fds=%d", fds);
 		putchar('\n');
 	}
-	json_object_put(res);
+	free(a);
+	free(b);
+	json_object_put(memobj);
 }
 
 struct feeder { int fd; const unsigned char *data; size_t len; const char *chunks; };
@@ -535,11 +588,13 @@ int main(void)
 			call_limit = nsch + 64 + len;
 			int fds0 = count_fds();
 			clear_err();
+			long live0 = live_blocks;
 			mode = M_RMEM;
 			struct json_object *res = dflt_depth ? json_object_from_fd(FAKE_FD) : json_object_from_fd_ex(FAKE_FD, depth);
 			mode = M_PASS;
+			long leak = live_blocks - live0;
 			int fds1 = count_fds();
-			report_read(res, data, len, depth == -1 ? JSON_TOKENER_DEFAULT_DEPTH : depth, 0, fds1 - fds0, 0);
+			report_read(res, data, len, depth == -1 ? JSON_TOKENER_DEFAULT_DEPTH : depth, 0, fds1 - fds0, 0, leak);
 			free(data);
 		}
 		else if (!strcmp(W[0], "fromfile") && NW == 5)
@@ -570,11 +625,13 @@ int main(void)
 			call_limit = nsch + 64 + len;
 			int fds0 = count_fds();
 			clear_err();
+			long live0 = live_blocks;
 			mode = M_RFILE;
 			struct json_object *res = json_object_from_file(path);
 			mode = M_PASS;
+			long leak = live_blocks - live0;
 			int fds1 = count_fds();
-			report_read(res, data, len, JSON_TOKENER_DEFAULT_DEPTH, 0, fds1 - fds0, 1);
+			report_read(res, data, len, JSON_TOKENER_DEFAULT_DEPTH, 0, fds1 - fds0, 1, leak);
 			if (created)
 				unlink(path);
 			free(data);
@@ -600,7 +657,7 @@ int main(void)
 			struct json_object *res = json_object_from_fd_ex(p[0], depth);
 			pthread_join(th, NULL);
 			close(p[0]);
-			report_read(res, data, len, depth == -1 ? JSON_TOKENER_DEFAULT_DEPTH : depth, 1, 0, 0);
+			report_read(res, data, len, depth == -1 ? JSON_TOKENER_DEFAULT_DEPTH : depth, 1, 0, 0, 0);
 			free(data);
 		}
 		else if (!strcmp(W[0], "wpipe") && NW == 4)
@@ -658,9 +715,9 @@ int main(void)
 	if (chdir("..") == 0)
 		rmdir(dir);
 	free(sch);
-	free(calls);
-	free(deliv);
-	free(p_buf);
+	__real_free(calls);
+	__real_free(deliv);
+	__real_free(p_buf);
 	free(hc_line);
 	return 0;
 }
